@@ -1078,10 +1078,13 @@ func transFollowTrace(id int, seed int64, tr transT, out *json.Encoder) {
 			model[k] = v
 		}
 	}
-	if rng.Intn(2) == 0 {
+	if rng.Intn(2) == 0 || storesOut != nil {
 		r.exec(absOp{Op: "root", H: 2})
 	}
 	r.exec(absOp{Op: "iter", H: 3})
+	if storesOut != nil {
+		r.dumpStores()
+	}
 }
 
 // directedShapes: three-level trees put together from groups of lower-layer keys separated by top-layer keys, where some groups
